@@ -169,26 +169,24 @@ SDIR_EXTENSION = b"sdir"  # Sparse directory extension
 
 
 def _encode_varint(value: int) -> bytes:
-    """Encode an integer using variable-width encoding.
+    """Encode an integer using git's variable-width encoding (varint.c).
 
-    Same format as used for OFS_DELTA pack entries and index v4 path compression.
-    Uses 7 bits per byte, with the high bit indicating continuation.
+    Same format as used for OFS_DELTA pack entries and index v4 path
+    compression: big-endian groups of 7 bits, the high bit indicating
+    continuation, with one subtracted from every group but the last so that
+    each value has a single encoding.
 
     Args:
       value: Integer to encode
     Returns:
       Encoded bytes
     """
-    if value == 0:
-        return b"\x00"
-
-    result = []
+    result = [value & 0x7F]
+    value >>= 7
     while value > 0:
-        byte = value & 0x7F  # Take lower 7 bits
+        value -= 1
+        result.insert(0, 0x80 | (value & 0x7F))
         value >>= 7
-        if value > 0:
-            byte |= 0x80  # Set continuation bit
-        result.append(byte)
 
     return bytes(result)
 
@@ -203,16 +201,15 @@ def _decode_varint(data: bytes, offset: int = 0) -> tuple[int, int]:
       tuple of (decoded_value, new_offset)
     """
     value = 0
-    shift = 0
     pos = offset
 
     while pos < len(data):
         byte = data[pos]
         pos += 1
-        value |= (byte & 0x7F) << shift
-        shift += 7
+        value = (value << 7) | (byte & 0x7F)
         if not (byte & 0x80):  # No continuation bit
             break
+        value += 1
 
     return value, pos
 
@@ -299,7 +296,6 @@ def _decompress_path_from_stream(
     """
     # Decode the varint for remove_len by reading byte by byte
     remove_len = 0
-    shift = 0
     bytes_consumed = 0
 
     while True:
@@ -308,10 +304,10 @@ def _decompress_path_from_stream(
             raise ValueError("Unexpected end of file while reading varint")
         byte = byte_data[0]
         bytes_consumed += 1
-        remove_len |= (byte & 0x7F) << shift
-        shift += 7
+        remove_len = (remove_len << 7) | (byte & 0x7F)
         if not (byte & 0x80):  # No continuation bit
             break
+        remove_len += 1
 
     # Read the suffix until NUL terminator
     suffix = b""
